@@ -256,4 +256,73 @@ def drawShape {κ ρ σ : Type} (R : RngOps κ ρ σ) (shape : σ ⊕ List σ) (
 def specRng {κ ρ σ : Type} (R : RngOps κ ρ σ) (shape : σ ⊕ List σ) (k : κ) : (ρ ⊕ List ρ) × κ :=
   (drawShape R shape k, (R.split k).1)
 
+/-! ## 5. constructor options: literal defaults, shared default-argument objects, class-level dictionaries -/
+
+/-- a Python `dict` with string keys, as an association list without duplicate keys -/
+abbrev Dict (ν : Type) := List (String × ν)
+
+/-- `d[k] = v` -/
+def Dict.set {ν : Type} (d : Dict ν) (k : String) (v : ν) : Dict ν :=
+  if d.any (fun kv => kv.1 == k) then d.map (fun kv => if kv.1 == k then (k, v) else kv) else d ++ [(k, v)]
+
+/-- `d.update(u)` -/
+def Dict.update {ν : Type} (d u : Dict ν) : Dict ν := u.foldl (fun acc kv => acc.set kv.1 kv.2) d
+
+/-- how a constructor treats its option dictionary:
+    * `byRef`      — `def __init__(self, kw={…}): self.kw = kw` (`GenericSubproblemSolver.minimize_kwargs`): the ONE
+                     default-argument object created at function definition time is stored by reference;
+    * `copyUpdate` — `def __init__(self, kw=None): d = {…literal…}; if kw: d.update(kw); self.kw = d`
+                     (`LinearSubproblemSolver.cg_kwargs`, `MatrixSubproblemSolver.solve_kwargs`,
+                     `SquaredL2Loss.prox_kwargs`): a new dictionary per object;
+    * `classUpdate`— a class-level dictionary updated in place and stored by reference (NOT in scico; the shape of
+                     the defect the property excludes, kept for the negative theorem). -/
+inductive OptPattern where
+  | byRef | copyUpdate | classUpdate
+deriving DecidableEq, Repr
+
+/-- heap of dictionary objects (`dicts[0]` = the default-argument / class-level object) and, per constructed
+    object, the id of the dictionary it holds -/
+structure OptWorld (ν : Type) where
+  dicts : List (Dict ν)
+  insts : List Nat
+
+/-- at import time: the default object exists, no instance yet -/
+def OptWorld.init {ν : Type} (lit : Dict ν) : OptWorld ν := ⟨[lit], []⟩
+
+inductive OptOp (ν : Type) where
+  | userDict (d : Dict ν)                  -- the caller builds a dictionary of options (gets the next id)
+  | ctor (arg : Option Nat)                -- `Cls()` / `Cls(kw=<dict object id>)`
+  | mutate (id : Nat) (k : String) (v : ν) -- in-place `obj[k] = v` on the dictionary object `id`
+
+/-- one constructor call under pattern `p` with literal defaults `lit` -/
+def OptWorld.ctor {ν : Type} (p : OptPattern) (lit : Dict ν) (w : OptWorld ν) (arg : Option Nat) : OptWorld ν :=
+  let given : Option (Dict ν) := match arg with | none => none | some a => w.dicts[a]?
+  match p with
+  | .byRef =>
+    match arg, given with
+    | some a, some _ => { w with insts := w.insts ++ [a] }       -- self.kw = kw  (the caller's object)
+    | _, _ => { w with insts := w.insts ++ [0] }                 -- self.kw = <default-argument object>
+  | .copyUpdate =>
+    let d := match given with | some u => lit.update u | none => lit
+    { dicts := w.dicts ++ [d], insts := w.insts ++ [w.dicts.length] }
+  | .classUpdate =>
+    let d0 := match w.dicts[0]? with | some d => d | none => lit
+    let d := match given with | some u => d0.update u | none => d0
+    { dicts := w.dicts.set 0 d, insts := w.insts ++ [0] }
+
+def OptWorld.apply {ν : Type} (p : OptPattern) (lit : Dict ν) (w : OptWorld ν) : OptOp ν → OptWorld ν
+  | .userDict d => { w with dicts := w.dicts ++ [d] }
+  | .ctor arg => w.ctor p lit arg
+  | .mutate id k v => { w with dicts := w.dicts.modify id (fun d => d.set k v) }
+
+def OptWorld.run {ν : Type} (p : OptPattern) (lit : Dict ν) (w : OptWorld ν) : List (OptOp ν) → OptWorld ν
+  | [] => w
+  | o :: os => OptWorld.run p lit (w.apply p lit o) os
+
+/-- the options object `i` sees -/
+def OptWorld.view {ν : Type} (w : OptWorld ν) (i : Nat) : Option (Dict ν) :=
+  match w.insts[i]? with
+  | none => none
+  | some id => w.dicts[id]?
+
 end Scico.Cache
